@@ -85,7 +85,7 @@ Theorem C04_extras_nested : forall e k n sid vs Js body Jl,
   /\ decode e sid (encode e sid (VStruct vs)) = DOk (norm_struct e sid (VStruct vs)) [].
 Proof. exact NestedProofs.extras_nested. Qed.
 (* instantiated on the schemas regenerated from the tree *)
-Theorem C04_code_schemas_extras_nested : forall sid vs Js body Jl, tfin 8 env0 (TStruct sid) = true ->
+Theorem C04_code_schemas_extras_nested : forall sid vs Js body Jl, fits_model sid = true ->
   has_type env0 (TStruct sid) (VStruct vs) ->
   xfields env0 (fields_of env0 sid) vs Js body -> junks_ok None (fields_of env0 sid) Js -> trailing_ok (fields_of env0 sid) Jl ->
   decode env0 sid (body ++ ser_fields Jl) = DOk (norm_struct env0 sid (VStruct vs)) (ser_fields Jl)
